@@ -295,6 +295,15 @@ func genTmplText(c *caseWriter, quick bool) {
 			emit(c, "ctx_after_text", k, s)
 			emit(c, "escape_text", k, s, "0")
 		})
+		// punctuation runs around comment ends and tag ends (a scanner that looks one or two bytes past a
+		// match shows at the END of a text node): every string of <= 4 symbols over - ! > and of <= 3 over < / > s
+		product([]string{"-", "!", ">"}, 4, func(s string) {
+			emit(c, "ctx_after_text", k, s)
+			emit(c, "escape_text", k, "x"+s, "0")
+		})
+		product([]string{"<", "/", ">", "s"}, 3, func(s string) {
+			emit(c, "ctx_after_text", k, s)
+		})
 		if idx < 60 || !quick {
 			// every single byte, alone and between two letters
 			for b := 0; b < 256; b++ {
